@@ -15,7 +15,9 @@ RULE = ('exhaustive: all 24 neighbour orderings x {4 heavy neighbours, implicit 
         'ring-linker / cumulene cases written in many random SMILES orders and as wedged MDL blocks and judged by RDKit '
         '(canonical isomeric SMILES, CIP labels); all 2^k label combinations of constitutionally asymmetric molecules pairwise '
         'unequal; labels on non-stereogenic centres dropped after edits; one forced label at a time on unlabelled corpus / spiro / '
-        'assembly structures kept exactly when an own constitutional verdict says stereogenic; monitors: counting dicts replace the two permutation '
+        'assembly structures kept exactly when an own constitutional verdict says stereogenic; families with verdicts by construction: ring atom opposite a '
+        'gem-disubstituted ring atom (equal / unlike groups, chains and rings), double bond with one end in a ring (chiral axis of alkylidene rings kept under '
+        'renumbering, two equal groups outside never labelled); monitors: counting dicts replace the two permutation '
         'tables and every key must be looked up; non-trivial = molecule with >= 2 stereo elements or a ring stereocentre, '
         'distinct by (canonical string, spelling/order)')
 ASSUMPTIONS = ['CachedMethods compatibility shim', 'RDKit as independent reader of SMILES marks and wedge bonds (carbon '
@@ -27,13 +29,13 @@ CONFIG = {
                          'table.tetrahedron-keys': 24, 'table.alkene-keys': 8, 'rdkit.smiles-compared': 3000,
                          'rdkit.wedge-compared': 300, 'isomers.sets': 40, 'edits.label-dropped': 30, 'single-label.compared': 1500,
                          'single-label.verdict-not-stereogenic': 300, 'single-label.spiro-pairs': 300, 'explicit-h-wedges.compared': 150, 'edits.dependent-labels-checked': 60,
-                         'gem.equal-substituents': 50, 'gem.unlike-substituents': 250}},
+                         'gem.equal-substituents': 50, 'gem.unlike-substituents': 250, 'ring-attached.axes': 120, 'ring-attached.equal-groups-outside': 9}},
     'thorough': {'shards': 16, 'budget_s': 1800, 'n_corpus': 4200, 'k_spell': 80,
                  'floors': {'evaluations': 100000, 'distinct_nontrivial': 8000, 'perm.tetrahedral': 200, 'perm.axis': 100,
                             'table.tetrahedron-keys': 24, 'table.alkene-keys': 8, 'rdkit.smiles-compared': 50000,
                             'rdkit.wedge-compared': 1000, 'isomers.sets': 60, 'edits.label-dropped': 30, 'single-label.compared': 8000,
                             'single-label.verdict-not-stereogenic': 1500, 'single-label.spiro-pairs': 300, 'explicit-h-wedges.compared': 600, 'edits.dependent-labels-checked': 60,
-                            'gem.equal-substituents': 50, 'gem.unlike-substituents': 250}},
+                            'gem.equal-substituents': 50, 'gem.unlike-substituents': 250, 'ring-attached.axes': 120, 'ring-attached.equal-groups-outside': 9}},
 }
 
 
@@ -647,6 +649,81 @@ def gem_substituted_rings(ctx):
                     ctx.violation('diastereomers-compare-equal/ring-atom-opposite-two-unlike-substituents', '%s: @ and @@ forms equal' % text, {'smiles': text})
 
 
+AXIS_X = ['C', 'F', 'CC', 'OC', 'OC(=O)', 'Cl', 'N#C']
+AXIS_Y = ['C', 'O', 'F', 'c2ccccc2', 'N']
+AXIS_RINGS = ['%s/C=C1/CC[C@H](%s)CC1', '%s/C=C1/C[C@H](%s)C1', '%s/C=C1/CCC[C@H](%s)CCC1', '%s\\C=C1/CC[C@@H](%s)CC1', '%s/C=C1/CO[C@H](%s)OC1']
+ISOPROPYLIDENE = ['C/C(C)=C1/CC(C)CCC1=O', 'C/C(C)=C1/C[C@@H](C)CCC1=O', 'C/C(C)=C1\\C[C@H](C)CCC1', 'CC/C(CC)=C1/CCOC1', 'F/C(F)=C1/CC[C@H](C)C1', 'C/C(C)=C1/CCC[C@H]1C',
+                  'OC/C(CO)=C1/CCNC1=O', 'C/C(C)=C1/CC1C', 'c1ccccc1/C(c1ccccc1)=C1/CCOC1']
+
+
+def ring_attached_double_bonds(ctx, rng):
+    """a double bond with one end in a ring. Symmetric ring + two unlike groups outside + a labelled ring atom opposite: a chiral axis,
+    both labels are kept, mirror images differ, renumbering changes nothing. Two equal groups outside: never stereogenic, the mark is
+    dropped. Verdicts by construction"""
+    k = 0
+    for frame in AXIS_RINGS:
+        for x in AXIS_X:
+            for y in AXIS_Y:
+                k += 1
+                if not ctx.mine(k) or x == y:
+                    continue
+                text = frame % (x, y)
+                mirror = text.replace('@@', '!').replace('@', '@@').replace('!', '@')
+                try:
+                    m, mm = smiles(text), smiles(mirror)
+                except Exception as e:
+                    ctx.violation('labelled-text-not-readable/%s' % type(e).__name__, '%s: %r' % (text, e), {'smiles': text})
+                    continue
+                ctx.evaluations += 1
+                ctx.count('ring-attached.axes')
+                ctx.nontrivial.add('axis:' + text)
+                n_a = sum(a.stereo is not None for _, a in m.atoms())
+                n_b = sum(b.stereo is not None for *_, b in m.bonds())
+                if (n_a, n_b) != (1, 1):
+                    ctx.violation('label-dropped-on-stereogenic-centre/axis-of-alkylidene-ring', '%s: %d atom and %d bond labels kept, axis needs both' % (text, n_a, n_b),
+                                  {'smiles': text})
+                    continue
+                if m == mm:
+                    ctx.violation('mirror-images-compare-equal/axis-of-alkylidene-ring', '%s and %s' % (text, mirror), {'smiles': text})
+                    continue
+                for _ in range(3):
+                    try:
+                        new, mp, bad = T.redescribe(m, rng)
+                    except Exception:
+                        break
+                    if bad:
+                        continue
+                    ctx.count('ring-attached.renumbered')
+                    # equality of the two descriptions is inside the recorded gap of the canonical string (equivalent ring arms): labels only
+                    k_a = sum(a.stereo is not None for _, a in new.atoms())
+                    k_b = sum(b.stereo is not None for *_, b in new.bonds())
+                    if (k_a, k_b) != (1, 1):
+                        ctx.violation('label-dropped-on-stereogenic-centre/axis-of-alkylidene-ring', '%s renumbered %s: %d atom and %d bond labels kept, axis needs both'
+                                      % (text, sorted(mp.items())[:8], k_a, k_b), {'smiles': text})
+                        break
+    for i, text in enumerate(ISOPROPYLIDENE):
+        if not ctx.mine(i):
+            continue
+        try:
+            m = smiles(text)
+        except Exception as e:
+            ctx.violation('labelled-text-not-readable/%s' % type(e).__name__, '%s: %r' % (text, e), {'smiles': text})
+            continue
+        ctx.evaluations += 1
+        ctx.count('ring-attached.equal-groups-outside')
+        n_b = sum(b.stereo is not None for *_, b in m.bonds())
+        if n_b:
+            ctx.violation('label-kept-on-non-stereogenic-centre/double-bond-with-two-equal-groups', '%s: mark kept, written %s' % (text, m), {'smiles': text})
+        for _ in range(3):
+            try:
+                new, mp, bad = T.redescribe(m, rng)
+            except Exception:
+                break
+            if not bad and any(b.stereo is not None for *_, b in new.bonds()):
+                ctx.violation('label-kept-on-non-stereogenic-centre/double-bond-with-two-equal-groups', '%s renumbered: mark kept, written %s' % (text, new), {'smiles': text})
+                break
+
+
 def worker(ctx):
     cfg = CONFIG[ctx.tier]
     rng = ctx.rng
@@ -656,6 +733,7 @@ def worker(ctx):
     exhaustive_permutations(ctx)
     label_dropping(ctx)
     gem_substituted_rings(ctx)
+    ring_attached_double_bonds(ctx, rng)
     c = T.corpus()
     ids = list(range(len(c)))
     _random.Random(ctx.seed).shuffle(ids)
